@@ -80,6 +80,53 @@ theorem parseStep_select_listed (c : PCfg) (s : PState) (a : Bytes) (n : Int) (o
   have h1 : bSelect ≠ bPing := by decide
   simp [h1, ha, hdb]
 
+/-- a command other than SELECT never changes the bypass flag -/
+theorem parseStep_keeps_bypass (c : PCfg) (s : PState) (r : Raw) (hr : r.cmd ≠ bSelect) :
+    (parseStep c s r).1.bypass = s.bypass := by
+  unfold parseStep
+  by_cases hp : r.cmd = bPing
+  · simp only [hp, if_true]
+    cases c.filterCmdKey bPing r.args with
+    | none => rfl
+    | some a => cases hb : s.bypass <;> simp [hb, sent]
+  · simp only [hp, if_false, hr]
+    by_cases hfc : c.filterCmd r.cmd = true
+    · simp [hfc]
+    · simp only [hfc, Bool.false_eq_true, if_false]
+      by_cases hsen : r.cmd = bPublish ∧ Option.map lower r.args.head? = some bSentinelHello
+      · simp [hsen]
+      · simp only [hsen, if_false]
+        by_cases hsk : s.bypass = true ∧ passBracket s r.cmd = false
+        · simp [hsk]
+        · simp only [hsk, if_false]
+          cases c.filterCmdKey r.cmd r.args <;> simp [sent]
+
+theorem stateAfter_keeps_bypass (c : PCfg) (s : PState) (l : List Raw) (hl : ∀ p ∈ l, p.cmd ≠ bSelect) :
+    (stateAfter c s l).bypass = s.bypass := by
+  induction l generalizing s with
+  | nil => rfl
+  | cons r rest ih =>
+    have hr := hl r List.mem_cons_self
+    have := ih (parseStep c s r).1 (fun p hp => hl p (List.mem_cons_of_mem _ hp))
+    unfold stateAfter at this ⊢
+    rw [List.foldl_cons, this, parseStep_keeps_bypass c s r hr]
+
+/-- SELECT of an unlisted database clears the bypass flag -/
+theorem parseStep_select_unlisted (c : PCfg) (s : PState) (a : Bytes) (n : Int) (off : Int)
+    (ha : Sender.atoi? a = some n) (hdb : c.filterDb n = false) :
+    (parseStep c s { cmd := bSelect, args := [a], off := off }).1.bypass = false := by
+  unfold parseStep
+  have h1 : bSelect ≠ bPing := by decide
+  simp only [h1, if_false, if_true, ha, hdb]
+  cases c.filterCmdKey bSelect [a] with
+  | none => simp
+  | some x =>
+    simp only [Bool.false_eq_true, if_false]
+    by_cases hn : n ≥ 0
+    · simp only [hn, if_true]
+      cases hch : (selectDB c s.currentDB n).2 <;> simp [hch]
+    · simp [hn, sent]
+
 /-! ### key positions of a projected DEL / UNLINK / MSET -/
 
 theorem tableIndexes_all (last : Int) (hl : last = 0 ∨ last = -1) (n : Nat) (hn : 0 < n) :
